@@ -30,7 +30,6 @@ PROPS = {
     "C02": {
         "gens": [{"name": "C02", "quick": 2500, "thorough": 12000}, {"name": "setters", "quick": 800, "thorough": 5000},
                  {"name": "C08", "quick": 150, "thorough": 1000}, {"name": "C03", "quick": 500, "thorough": 3000}],
-        "known_ok": ["fma-product-exponent-out-of-range"],
         "nontrivial": {"inexact", "range"},
         "rule": ARITH_RULE + "non-trivial = accuracy must be Below or Above",
         "level": "proof",
